@@ -258,7 +258,8 @@ type pendingTask struct {
 }
 
 type cluster struct {
-	lastTN tnConn
+	lastTN    tnConn
+	initNodes map[uint64]Node // the initial configuration (init action)
 	net     *simNet
 	base    string
 	opt     Options
